@@ -164,7 +164,8 @@ struct Exec {
     bool f = faulted(f0);
     if (f && rc == -1) return;
     int exp = (n == 0 || d == s) ? 0 : (D.m.fz_end || S.m.fz_start) ? -1 : (int)(n < sl ? n : sl);
-    CHECK(rc == exp, K("remove-buffer-ret"), "evbuffer_remove_buffer(buf%d->buf%d,%zu) returned %d, expected %d", s, d, n, rc, exp);
+    // under an injected allocation failure a smaller byte count is an honest report (checked below against what really moved)
+    if (!(f && rc >= 0 && rc <= exp)) CHECK(rc == exp, K("remove-buffer-ret"), "evbuffer_remove_buffer(buf%d->buf%d,%zu) returned %d, expected %d", s, d, n, rc, exp);
     if (rc > 0) {
       if (f) {
         size_t dl = evbuffer_get_length(D.eb);
